@@ -272,6 +272,39 @@ pub fn table(thorough: bool) -> Vec<LibEntry> {
     t.push(entry!(sd "compose" 2 BTreeMap<LK, Option<chrono::NaiveDate>>, [bm(vec![(LK::Ka, None), (LK::Kb, chrono::NaiveDate::from_ymd_opt(2000, 1, 1))])], gen ["LK"]));
     t.push(entry!(sd "compose" 2 Vec<uuid::Uuid>, [vec![uuid::Uuid::nil()]], gen []));
     t.push(entry!(sd "compose" 2 indexmap::IndexMap<u32, heapless::Vec<Option<LU>, 3>>, [[(1u32, heapless::Vec::from_slice(&[None, Some(lu(1))]).unwrap())].into_iter().collect()], gen ["LU"]));
+    // ---- every container once more with a *wrapped* / *nested* user type at each argument position: the type arguments
+    //      must still be found through the wrapper (visit_generics recursion of each impl)
+    t.push(entry!(sd "nested-arg" 2 Vec<Box<LU>>, [vec![Box::new(lu(1))]], gen ["LU"]));
+    t.push(entry!(sd "nested-arg" 2 Vec<Vec<LU>>, [vec![vec![lu(1)]]], gen ["LU"]));
+    t.push(entry!(sd "nested-arg" 2 Option<Rc<LU>>, [Some(Rc::new(lu(1))), None], gen ["LU"]));
+    t.push(entry!(sd "nested-arg" 2 Option<Option<LK>>, [Some(Some(LK::Ka)), Some(None), None], gen ["LK"]));
+    t.push(entry!(sd "nested-arg" 2 HashMap<String, Arc<LU>>, [hm(vec![("k".to_string(), Arc::new(lu(1)))])], gen ["LU"]));
+    t.push(entry!(sd "nested-arg" 2 BTreeMap<Box<LK>, u8>, [bm(vec![(Box::new(LK::Ka), 1u8)])], gen ["LK"]));
+    t.push(entry!(sd "nested-arg" 2 HashMap<Rc<LK>, Vec<LU>>, [hm(vec![(Rc::new(LK::Kb), vec![lu(2)])])], gen ["LK", "LU"]));
+    t.push(entry!(sd "nested-arg" 2 BTreeMap<Cow<'static, LK>, Box<LU>>, [bm(vec![(Cow::Owned(LK::Ka), Box::new(lu(3)))])], gen ["LK", "LU"]));
+    t.push(entry!(sd "nested-arg" 2 HashSet<Box<LK>>, [[Box::new(LK::Ka)].into_iter().collect()], gen ["LK"]));
+    t.push(entry!(sd "nested-arg" 2 BTreeSet<Vec<LK>>, [[vec![LK::Ka, LK::Kb]].into_iter().collect()], gen ["LK"]));
+    t.push(entry!(sd "nested-arg" 2 (Box<LU>, Cow<'static, LK>), [(Box::new(lu(1)), Cow::Owned(LK::Kb))], gen ["LK", "LU"]));
+    t.push(entry!(sd "nested-arg" 2 (u8, Vec<LU>, Option<LK>), [(1, vec![lu(1)], None)], gen ["LK", "LU"]));
+    t.push(entry!(sd "nested-arg" 2 [Box<LU>; 2], [[Box::new(lu(1)), Box::new(lu(2))]], gen ["LU"]));
+    t.push(entry!(sd "nested-arg" 2 [Vec<LK>; 1], [[vec![LK::Ka]]], gen ["LK"]));
+    t.push(entry!(sd "nested-arg" 2 Result<Box<LU>, Rc<LK>>, [Ok(Box::new(lu(1))), Err(Rc::new(LK::Ka))], gen ["LK", "LU"]));
+    t.push(entry!(sd "nested-arg" 2 Result<Vec<LU>, Option<LK>>, [Ok(vec![lu(1)]), Err(None)], gen ["LK", "LU"]));
+    t.push(entry!(sd "nested-arg" 2 Box<Vec<Box<LU>>>, [Box::new(vec![Box::new(lu(1))])], gen ["LU"]));
+    t.push(entry!(sd "nested-arg" 2 Rc<Option<LU>>, [Rc::new(Some(lu(1)))], gen ["LU"]));
+    t.push(entry!(sd "nested-arg" 2 Arc<(LU, LK)>, [Arc::new((lu(1), LK::Ka))], gen ["LK", "LU"]));
+    t.push(entry!(sd "nested-arg" 2 Cell<Option<u8>>, [Cell::new(Some(1))], gen []));
+    t.push(entry!(sd "nested-arg" 2 RefCell<Vec<LU>>, [RefCell::new(vec![lu(1)])], gen ["LU"]));
+    t.push(entry!(sd "nested-arg" 2 Mutex<Option<LU>>, [Mutex::new(Some(lu(1)))], gen ["LU"]));
+    t.push(entry!(sd "nested-arg" 2 RwLock<Vec<LK>>, [RwLock::new(vec![LK::Ka])], gen ["LK"]));
+    t.push(entry!(sd "nested-arg" 2 Cow<'static, [LU]>, [Cow::Owned(vec![lu(1)])], gen ["LU"]));
+    t.push(entry!(sd "nested-arg" 2 Range<Box<u8>>, [Box::new(1u8)..Box::new(2u8)], gen []));
+    t.push(entry!(sd "nested-arg" 2 indexmap::IndexMap<Box<LK>, Vec<LU>>, [[(Box::new(LK::Ka), vec![lu(1)])].into_iter().collect()], gen ["LK", "LU"]));
+    t.push(entry!(sd "nested-arg" 2 indexmap::IndexSet<Box<LK>>, [[Box::new(LK::Ka)].into_iter().collect()], gen ["LK"]));
+    t.push(entry!(sd "nested-arg" 2 heapless::Vec<Vec<LU>, 2>, [heapless::Vec::from_slice(&[vec![lu(1)]]).unwrap()], gen ["LU"]));
+    t.push(entry!(n "nested-arg" 2 serde_json::Map<String, Vec<LU>>, gen ["LU"]));
+    t.push(entry!(n "nested-arg" 2 tokio::sync::Mutex<Vec<LU>>, gen ["LU"]));
+    t.push(entry!(n "nested-arg" 2 tokio::sync::OnceCell<Box<LK>>, gen ["LK"]));
     if thorough {
         t.push(entry!(sd "compose3" 3 Vec<Vec<Option<BTreeMap<String, (LU, Vec<LK>)>>>>, [vec![vec![None, Some(bm(vec![("a".to_string(), (lu(1), vec![LK::Ka]))]))], vec![]]], gen ["LK", "LU"]));
         t.push(entry!(sd "compose3" 3 HashMap<u64, Result<Option<Box<LU>>, Vec<[LK; 2]>>>, [hm(vec![(1u64, Ok(None)), (2, Ok(Some(Box::new(lu(1))))), (3, Err(vec![[LK::Ka, LK::Kb]]))])], gen ["LK", "LU"]));
